@@ -102,6 +102,17 @@ func (u *Unit) freshParam(st *State, v *types.Var) Term {
 	for _, c := range u.g.refComponents(nm, v.Type(), u.bv, 0) {
 		u.defs = append(u.defs, app("not", app("fresh$", c)))
 	}
+	// the elements of a parameter that is a slice of references exist before the unit runs
+	if sl, ok := v.Type().Underlying().(*types.Slice); ok {
+		switch sl.Elem().Underlying().(type) {
+		case *types.Pointer, *types.Interface:
+			e := &Ev{u: u, st: st, bv: u.bv, bound: map[string]Term{}}
+			e.elemHeap(e.sortOf(sl.Elem()))
+			if f := e.elemRefFact(nm, v.Type(), "", func(c string) string { return app("not", app("fresh$", c)) }); f != "" {
+				u.defs = append(u.defs, f)
+			}
+		}
+	}
 	return t
 }
 
